@@ -85,6 +85,7 @@ template <class Mesh> void HistRun<Mesh>::op_fork(const Op &q) {
     auto clone_model_into = [&](R &dst) {
         dst.m = src.m;
         dst.vpos = src.vpos;
+        dst.lat_v = src.lat_v; dst.lat_c = src.lat_c;
         // only persistent properties travel
         for (auto &mp : src.props) if (mp.attached && mp.persistent) {
             MProp c = mp;
@@ -118,7 +119,138 @@ template <class Mesh> void HistRun<Mesh>::op_fork(const Op &q) {
     }
 }
 
-template <class Mesh> void HistRun<Mesh>::op_collapse(R &, const Op &) {}
+// ---------------------------------------------------------------- resync: rebuild the model from the SUT after an op whose
+// entity-level renumbering the properties do not specify (tet edge collapse). Values are re-read, tags rewritten.
+template <class Mesh> void HistRun<Mesh>::resync(R &r, int ri) {
+    Snap s = take_snap(*r.mesh);
+    Model nm;
+    nm.deferred = s.deferred; nm.fast = s.fast;
+    for (int i = 0; i < 3; ++i) nm.bu[i] = s.bu[i];
+    std::vector<int> npos;
+    for (int i = 0; i < s.n[BV]; ++i) {
+        int u = nm.add_vertex(); nm.alive[BV][u] = !s.del[BV][i];
+        Vec3d p = r.mesh->vertex(VertexHandle(i));
+        npos.push_back(p == Vec3d(0, 0, 0) ? INT_MIN : Render<Vec3d>::back(p));
+    }
+    for (int i = 0; i < s.n[BE]; ++i) { int u = nm.add_edge(s.E[i].first, s.E[i].second); nm.alive[BE][u] = !s.del[BE][i]; }
+    for (int i = 0; i < s.n[BF]; ++i) { int u = nm.add_face(s.F[i]); nm.alive[BF][u] = !s.del[BF][i]; }
+    for (int i = 0; i < s.n[BC]; ++i) { int u = nm.add_cell(s.C[i]); nm.alive[BC][u] = !s.del[BC][i]; }
+    r.m = nm;
+    r.vpos = npos;
+    r.write_tags();
+    // property values: re-read through a held handle, or through the persistent listing
+    std::set<int> done;
+    auto reread = [&](MProp &mp, PropHolderBase &h) {
+        mp.val.clear();
+        int ns = r.nslots(mp.kind);
+        if ((int)h.size() != ns) return;   // size is verified by verify_props
+        for (int sl = 0; sl < ns; ++sl) { int key = r.key_of_slot(mp.kind, sl); if (key >= 0) mp.val[key] = h.decode(sl); }
+    };
+    for (int i = 0; i < NHELD; ++i) if (held[i].h && held[i].rep == ri && !done.count(held[i].mid)) { done.insert(held[i].mid); MProp &mp = r.props[held[i].mid]; if (mp.attached) reread(mp, *held[i].h); }
+    for (auto &pi : list_persistent(*r.mesh)) {
+        for (auto &mp : r.props) if (mp.attached && mp.persistent && !done.count(mp.id) && mp.kind == pi.kind && mp.name == pi.name) {
+            auto h = holder_from_storage(pi.st);
+            if (h && h->type == mp.type) { reread(mp, *h); done.insert(mp.id); }
+        }
+    }
+}
+
+// ---------------------------------------------------------------- tet edge collapse (C15)
+template <class Mesh> void HistRun<Mesh>::op_collapse(R &r, const Op &q) {
+    if constexpr (KID != 1) { (void)r; (void)q; return; }
+    else {
+        Model &m = r.m;
+        if (any_bu_off(r)) return;
+        // simplicial closure of everything alive
+        std::set<std::vector<int>> K;
+        auto addsimplex = [&](std::vector<int> v) {
+            std::sort(v.begin(), v.end()); v.erase(std::unique(v.begin(), v.end()), v.end());
+            int n = (int)v.size();
+            for (int mask = 1; mask < (1 << n); ++mask) { std::vector<int> sub; for (int i = 0; i < n; ++i) if (mask & (1 << i)) sub.push_back(v[i]); K.insert(sub); }
+        };
+        for (int v : m.live_uids(BV)) addsimplex({v});
+        for (int e : m.live_uids(BE)) addsimplex({m.E[e].from, m.E[e].to});
+        for (int f : m.live_uids(BF)) addsimplex(m.hf_vertices(2 * f));
+        std::vector<std::vector<int>> cells;   // oriented: first halfface cycle + apex
+        for (int c : m.live_uids(BC)) {
+            std::set<int> vs; for (int hf : m.C[c]) for (int v : m.hf_vertices(hf)) vs.insert(v);
+            if (vs.size() != 4) return;
+            std::vector<int> cyc = m.hf_vertices(m.C[c][0]);
+            for (int v : vs) if (std::find(cyc.begin(), cyc.end(), v) == cyc.end()) cyc.push_back(v);
+            cells.push_back(cyc);
+            addsimplex(cyc);
+        }
+        auto link = [&](const std::vector<int> &sig) {
+            std::set<std::vector<int>> L;
+            for (auto &tau : K) {
+                bool disjoint = true; for (int x : tau) if (std::find(sig.begin(), sig.end(), x) != sig.end()) disjoint = false;
+                if (!disjoint) continue;
+                std::vector<int> un = tau; un.insert(un.end(), sig.begin(), sig.end()); std::sort(un.begin(), un.end());
+                if (K.count(un)) L.insert(tau);
+            }
+            return L;
+        };
+        // candidate halfedges satisfying the link condition, no duplicate edges/faces around, and no degenerate result
+        std::vector<int> cand;
+        for (int e : m.live_uids(BE)) for (int s = 0; s < 2; ++s) {
+            int a = m.he_from(2 * e + s), b = m.he_to(2 * e + s);
+            if (a == b) continue;
+            auto La = link({a}), Lb = link({b}), Lab = link({std::min(a, b), std::max(a, b)});
+            std::set<std::vector<int>> inter; for (auto &x : La) if (Lb.count(x)) inter.insert(x);
+            if (inter != Lab) continue;
+            cand.push_back(2 * e + s);
+        }
+        // duplicate edges / faces make "the" edge between two vertices ambiguous for the kernel's lookups
+        for (int e1 : m.live_uids(BE)) for (int e2 : m.live_uids(BE)) if (e1 < e2) { auto &x = m.E[e1], &y = m.E[e2]; if ((x.from == y.from && x.to == y.to) || (x.from == y.to && x.to == y.from)) return; }
+        { std::set<std::vector<int>> seen; for (int f : m.live_uids(BF)) { auto v = m.hf_vertices(2 * f); std::sort(v.begin(), v.end()); if (!seen.insert(v).second) return; } }
+        if (cand.empty()) return;
+        int href = pick(cand, q.a[0]);
+        int a = m.he_from(href), b = m.he_to(href);
+        // expected cells
+        std::vector<std::vector<int>> want;
+        for (auto &c : cells) {
+            bool ha = std::find(c.begin(), c.end(), a) != c.end(), hb = std::find(c.begin(), c.end(), b) != c.end();
+            if (ha && hb) continue;
+            std::vector<int> t = c; for (int &x : t) if (x == a) x = b;
+            want.push_back(canon_even(t));
+        }
+        { auto w2 = want; std::sort(w2.begin(), w2.end()); if (std::adjacent_find(w2.begin(), w2.end()) != w2.end()) return; }   // would create a duplicate cell
+        // untouched cells keep their property values: remember tag->value through the uid tags of cells without a
+        std::vector<std::string> ow = {"C15"};
+        VertexHandle ret = r.mesh->collapse_edge(r.heh(href));
+        st.add("probe_collapse_executed");
+        st.add(m.deferred ? "probe_collapse_deferred" : (m.fast ? "probe_collapse_fast" : "probe_collapse_shift"));
+        // the returned handle designates b
+        if (!ret.is_valid() || ret.idx() >= (int)r.mesh->n_vertices() || r.mesh->is_deleted(ret) || r.tv[ret] != b)
+            ctx.fail(ow, "collapse-returned-handle", "collapse_edge(" + std::to_string(a) + "->" + std::to_string(b) + ") returned " + std::to_string(ret.idx()) + " which carries uid tag " + (ret.is_valid() && ret.idx() < (int)r.mesh->n_vertices() ? std::to_string(r.tv[ret]) : std::string("?")));
+        // resulting live cells as oriented tuples of vertex uids (via the vertex tags, which follow ordinary deletion)
+        std::vector<std::vector<int>> got;
+        Mesh &M = *r.mesh;
+        for (auto ch : M.cells()) {
+            std::vector<int> t;
+            std::set<int> vs;
+            const auto &hfs = M.cell(ch).halffaces();
+            if (hfs.size() != 4) ctx.fail(ow, "shape", "cell with " + std::to_string(hfs.size()) + " faces after collapse");
+            for (auto vh : M.halfface_vertices(hfs[0])) t.push_back(r.tv[vh]);
+            for (auto hf : hfs) for (auto vh : M.halfface_vertices(hf)) vs.insert(r.tv[vh]);
+            for (int v : vs) if (std::find(t.begin(), t.end(), v) == t.end()) t.push_back(v);
+            if (t.size() != 4) ctx.fail(ow, "shape", "cell without four distinct vertices after collapse");
+            got.push_back(canon_even(t));
+        }
+        std::sort(got.begin(), got.end()); std::sort(want.begin(), want.end());
+        if (got != want) {
+            std::string d = "collapse " + std::to_string(a) + "->" + std::to_string(b) + ": got " + std::to_string(got.size()) + " cells, expected " + std::to_string(want.size());
+            for (auto &t : want) if (!std::binary_search(got.begin(), got.end(), t)) { d += " missing/misoriented " + vec_str(t); break; }
+            ctx.fail(ow, "collapse-cells", d);
+        }
+        if (M.is_deleted(r.vh(b)) ) ctx.fail(ow, "collapse-cells", "b was deleted");
+        // a's slot must be gone / deleted, b alive; everything else is re-read
+        resync(r, cur);
+        resynced = true;
+    }
+}
+
+// ---------------------------------------------------------------- restart through a file (C06's HIST part): save, load into a new replica
 template <class Mesh> void HistRun<Mesh>::op_restart(R &, const Op &) {}
 
 // ---------------------------------------------------------------- registry invariants (C14)
@@ -177,6 +309,13 @@ template <class Mesh> void HistRun<Mesh>::verify_registry(R &r, int ri, bool dee
 // ---------------------------------------------------------------- after every op
 template <class Mesh> void HistRun<Mesh>::post_op(const Op &q, int idx) {
     (void)q;
+    // the property's own batteries first (they need nothing but the SUT), then the model comparison: a defect that
+    // also trips a foreign baseline oracle must not hide from the check whose property it breaks
+    {
+        R &r = *reps[cur];
+        Snap s = take_snap(*r.mesh);
+        run_batteries(r, s, snap_digest(s), idx);
+    }
     for (size_t i = 0; i < reps.size(); ++i) {
         R &r = *reps[i];
         std::vector<std::string> save_s = ow_struct, save_p = ow_props;
@@ -188,7 +327,7 @@ template <class Mesh> void HistRun<Mesh>::post_op(const Op &q, int idx) {
         uint64_t d = snap_digest(s);
         loghash = fnv1a(&d, sizeof d, loghash);
         ow_struct = save_s; ow_props = save_p;
-        if ((int)i == cur) run_batteries(r, s, d, idx);
+        if ((int)i == cur) note_nontrivial(r, d);
     }
     // handles that outlived their mesh: detached, data intact
     for (int i = 0; i < NHELD; ++i) if (held[i].h && held[i].rep == -2) {
@@ -200,11 +339,7 @@ template <class Mesh> void HistRun<Mesh>::post_op(const Op &q, int idx) {
     }
 }
 
-template <class Mesh> void HistRun<Mesh>::run_batteries(R &r, const Snap &s, uint64_t d, int idx) {
-    (void)s;
-    const Mesh &M = *r.mesh;
-    int every = (int)plan.c("battery_every", 1);
-    bool due = every <= 1 || idx % every == 0 || idx + 1 == (int)plan.ops.size();
+template <class Mesh> void HistRun<Mesh>::note_nontrivial(R &r, uint64_t d) {
     if (ctx.in({"C02", "C03", "C04", "C11", "C13", "C14", "C17"})) {
         // model-based properties: a state counts as non-trivial when something of the property's subject is present
         bool nt = false;
@@ -217,12 +352,20 @@ template <class Mesh> void HistRun<Mesh>::run_batteries(R &r, const Snap &s, uin
         if (ctx.is("C17")) nt = last_kind.rfind("SWAP_", 0) == 0 && swap_a != swap_b;
         if (nt) st.nt(d ^ fnv1a(last_kind));
     }
+}
+template <class Mesh> void HistRun<Mesh>::run_batteries(R &r, const Snap &s, uint64_t d, int idx) {
+    (void)s;
+    const Mesh &M = *r.mesh;
+    int every = (int)plan.c("battery_every", 1);
+    bool due = every <= 1 || idx % every == 0 || idx + 1 == (int)plan.ops.size();
     if (!due) return;
     if (ctx.in({"C01", "C12"})) battery_c01(M, ctx, st, d);
     if (ctx.is("C05")) battery_c05(M, ctx, st, d);
     if (ctx.is("C08")) battery_c08(M, ctx, st, d);
     if (ctx.in({"C09", "C12"})) battery_c09(M, ctx, st, d, no_set_ops);
     if (ctx.is("C10")) battery_c10(M, ctx, st, d);
+    if constexpr (KID == 1) { if (ctx.is("C15")) battery_c15(M, ctx, st, d); }
+    if constexpr (KID == 2) { if (ctx.is("C16")) battery_c16(M, ctx, st, d); }
 }
 
 template <class Mesh> RunResult HistRun<Mesh>::run() {
